@@ -63,6 +63,9 @@ pub enum COp {
     Status { to: St, late: bool },
     /// Client event; `sys`: emitted from a system in `Update` instead of between frames.
     EmitC1 { sys: bool },
+    /// The transport reports `Connected` and a system in `Update` of that very frame emits a
+    /// client event (e.g. game logic behind `run_if(client_just_connected)`).
+    ConnectAndEmit,
     /// Client event; the transport does not get to flush the client's outgoing queue in this
     /// frame (the link is about to go down): the message stays queued inside `RepliconClient`.
     EmitC1Unflushed,
@@ -83,6 +86,7 @@ impl COp {
             COp::Status { to, late } => format!("client status -> {to:?}{}", if *late { " (in PrepareSend)" } else { "" }),
             COp::EmitC1 { sys } => format!("emit client event{}", if *sys { " from Update" } else { "" }),
             COp::EmitC1Unflushed => "emit client event, transport does not flush this frame".into(),
+            COp::ConnectAndEmit => "client status -> Connected, client event emitted from Update of the same frame".into(),
             COp::EmitCT { target, sys } => format!(
                 "emit client trigger{}{}",
                 if *target { " with target" } else { "" },
@@ -236,6 +240,7 @@ impl C13Cell {
             }
             COp::EmitC1 { .. } | COp::EmitCT { .. } => true,
             COp::EmitC1Unflushed => status == Some(St::Connected) && !pending_status,
+            COp::ConnectAndEmit => !running && !pending_status && !pending_stop && matches!(status, Some(St::Disconnected) | Some(St::Connecting)),
             COp::EmitE1 { mode, .. } | COp::EmitT1 { mode, .. } | COp::EmitEI { mode, .. } | COp::EmitTI { mode, .. } => match mode {
                 ModeS::ExceptRemote | ModeS::DirectRemote => running && x.remote.is_some(),
                 _ => true,
@@ -637,6 +642,11 @@ impl Scenario for C13Cell {
                     x.app.world_mut().resource_mut::<RepliconClient>().set_status(s);
                 }
             }
+            COp::ConnectAndEmit => {
+                x.app.world_mut().resource_mut::<RepliconClient>().set_status(RepliconClientStatus::Connected);
+                let s = new_emission(x, CK::C1.tag(), true, (false, false));
+                x.app.world_mut().resource_mut::<PendingEmits>().0.push(PEmit::C1(s));
+            }
             COp::EmitC1Unflushed => {
                 let s = new_emission(x, CK::C1.tag(), true, (false, false));
                 x.emissions.last_mut().unwrap().unflushed = true;
@@ -741,6 +751,7 @@ pub fn cells(tier: Tier) -> Vec<CellPlan> {
             COp::EmitC1 { sys: false },
             COp::EmitC1 { sys: true },
             COp::EmitC1Unflushed,
+            COp::ConnectAndEmit,
             COp::EmitCT { target: false, sys: false },
             COp::EmitCT { target: true, sys: true },
             COp::EmitE1 { mode: ModeS::Broadcast, sys: false },
